@@ -96,7 +96,7 @@ def _only(name):
 
 def harness_specs(tier):
     runner.JOBS = min(runner.JOBS, MAX_PARALLEL_COMPILES)     # sanitizer TUs are heavy; the machine is shared
-    specs = [t['spec'] for t in tus(tier)] + [M_SPEC] + list(_replay_specs(tier).values())
+    specs = [t['spec'] for t in tus(tier)] + [M_SPEC, CAP_SPEC] + list(_replay_specs(tier).values())
     return [s for s in specs if _only(s['name'])]
 
 
@@ -716,12 +716,230 @@ def gen_assign(tier, rng):
                        oracle='ok data=' + fmt(d), tags=('assign', 'over-provisioned' if threads > n else 'exact-or-short'))
 
 
+
+# ------------------------------------------------------------------------------------------------
+# (c) capacity: index functions with bounded results, bounded operands up to FULL capacity (harness/h_c02cap.cpp)
+# ------------------------------------------------------------------------------------------------
+H_CAP = 'h_c02cap'
+CAP_SPEC = dict(name=H_CAP, src='h_c02cap.cpp', flavour='san-dbg', extra=['-DPROTO_VERIF_EVENTS'])
+CAP_S, CAP_L = 4, 3           # largest capacities instantiated by the TU: shapes / argument lists
+
+
+def _pool_extent(n, k, s, ceil):
+    if not ceil:
+        return (n - k) // s + 1
+    o = -((n - k) // -s) + 1
+    return o - 1 if o > 1 and (o - 1) * s >= n else o
+
+
+def _moveaxis_order(dim, src, dst):
+    """NumPy's own construction (numpy/core/numeric.py: moveaxis)"""
+    src = [a % dim for a in src]
+    dst = [a % dim for a in dst]
+    order = [n for n in range(dim) if n not in src]
+    for d, sa in sorted(zip(dst, src)):
+        order.insert(d, sa)
+    return order
+
+
+def _in_range(axes, n):
+    return all(-n <= a < n for a in axes)
+
+
+class CapGen:
+    """requests `cap fn=…`; the oracle is the reference shape (NumPy where NumPy has the function) and the capacity formula of
+    the result container read off the metafunction"""
+
+    def __init__(self, tier, rng):
+        self.tier, self.rng, self.seen = tier, rng, set()
+
+    def case(self, fn, kv, cap, value, full):
+        req = 'cap fn=%s %s' % (fn, ' '.join('%s=%s' % (k, v if isinstance(v, str) else (fmt(v) if isinstance(v, (list, tuple)) else v)) for k, v in kv))
+        if req in self.seen:
+            return None
+        self.seen.add(req)
+        oracle = 'nothing' if value is None else 'ok cap=%d value=%s' % (cap, fmt(value))
+        return Case(req, H_CAP, dom=True, oracle=oracle, model=True, nontrivial=value is not None,
+                    tags=('cap', 'cap:' + fn) + (('full-capacity',) if full else ()) + (('refused',) if value is None else ()))
+
+    def caps(self, n, mx):
+        """capacities tried for an operand of n entries: full, and (sampled) with slack"""
+        out = [max(n, 1)]
+        if max(n, 1) < mx and self.rng.random() < .4:
+            out.append(self.rng.randint(max(n, 1) + 1, mx))
+        return out
+
+    def gen(self):
+        rng = self.rng
+        quick = self.tier == 'quick'
+        pos = [s for s in shapes(CAP_S, 3, min_rank=1)]
+        sample = lambda l, k: l if len(l) <= k else rng.sample(l, k)
+        # --- expand_dims: every axis list of 1..3 distinct axes (negative forms sampled), and refused ones
+        for s in sample(pos, 40 if quick else 120):
+            for m in range(1, CAP_L + 1):
+                n = len(s) + m
+                combos = [list(c) for c in itertools.combinations(range(n), m)]
+                for ax in sample(combos, 4 if quick else 10):
+                    rng.shuffle(ax)
+                    ax = [a - n if rng.random() < .4 else a for a in ax]
+                    v = list(np.expand_dims(np.empty(tuple(s), dtype=np.int8), tuple(ax)).shape)
+                    for bs in self.caps(len(s), CAP_S):
+                        for ba in self.caps(m, CAP_L):
+                            yield self.case('expand_dims', [('shape', s), ('bs', bs), ('axes', ax), ('ba', ba)], bs + ba, v,
+                                            bs == len(s) and ba == m)
+                bad = [rng.randint(-n - 2, n + 1) for _ in range(m)]
+                if not _in_range(bad, n) or len({a % n for a in bad}) < m:
+                    yield self.case('expand_dims', [('shape', s), ('bs', len(s)), ('axes', bad), ('ba', m)], 0, None, True)
+            for a in range(-len(s) - 1, len(s) + 1):
+                v = list(np.expand_dims(np.empty(tuple(s), dtype=np.int8), a).shape)
+                for bs in self.caps(len(s), CAP_S):
+                    yield self.case('expand_dims1', [('shape', s), ('bs', bs), ('axis', a)], bs + 1, v, bs == len(s))
+        # --- squeeze / remove_single_dims (positive extents)
+        for s in pos:
+            v = [e for e in s if e != 1]
+            for bs in self.caps(len(s), CAP_S):
+                yield self.case('squeeze', [('shape', s), ('bs', bs)], bs, v, bs == len(s))
+                yield self.case('remove_single_dims', [('shape', s), ('bs', bs)], bs, v, bs == len(s))
+        # --- sliding_window
+        wide = [[rng.randint(2, 6) for _ in range(r)] for r in range(1, CAP_S + 1) for _ in range(6 if quick else 25)]
+        for s in wide:
+            r = len(s)
+            x = np.empty(tuple(s), dtype=np.int8)
+            swv = np.lib.stride_tricks.sliding_window_view
+            for _ in range(4):
+                m = rng.randint(1, min(CAP_L, 3))
+                axes = [rng.randrange(r) for _ in range(m)]
+                budget = list(s)
+                ws = []
+                for a in axes:
+                    w = rng.randint(1, budget[a])
+                    budget[a] -= w - 1
+                    ws.append(w)
+                ax = [a - r if rng.random() < .4 else a for a in axes]
+                v = list(swv(x, tuple(ws), tuple(ax)).shape)
+                for bs in self.caps(r, CAP_S):
+                    for bw in self.caps(m, CAP_L):
+                        yield self.case('sliding_window', [('shape', s), ('bs', bs), ('window', ws), ('bw', bw), ('axes', ax)], bs + bw, v,
+                                        bs == r and bw == m)
+            if r <= CAP_L:
+                ws = [rng.randint(1, e) for e in s]
+                v = list(swv(x, tuple(ws)).shape)
+                for bs in self.caps(r, CAP_S):
+                    yield self.case('sliding_window', [('shape', s), ('bs', bs), ('window', ws), ('bw', r), ('axes', 'None')], bs + r, v, bs == r)
+            w = rng.randint(1, min(s))
+            v = list(swv(x, w).shape) if r == 1 else list(swv(x, (w,) * r).shape[:r]) + [w]
+            for bs in self.caps(r, CAP_S):
+                yield self.case('sliding_window', [('shape', s), ('bs', bs), ('window', w), ('scalar', 1), ('axes', 'None')], bs + 1, v, bs == r)
+            a = rng.randrange(-r, r)
+            w = rng.randint(1, s[a])
+            v = list(swv(x, w, a).shape)
+            for bs in self.caps(r, CAP_S):
+                yield self.case('sliding_window', [('shape', s), ('bs', bs), ('window', w), ('scalar', 1), ('axes', a)], bs + 1, v, bs == r)
+        # --- take / dynamic slice / roll / resize / expand / pool2d / diagonal / moveaxis: rank-preserving or rank-reducing
+        for s in sample(pos, 40 if quick else 120) + wide:
+            r = len(s)
+            x = np.empty(tuple(s), dtype=np.int8)
+            bss = self.caps(r, CAP_S)
+            for bs in bss:
+                full = bs == r
+                a = rng.randrange(-r, r)
+                n = rng.randint(1, 4)
+                yield self.case('take', [('shape', s), ('bs', bs), ('nidx', n), ('axis', a)], bs, list(np.take(x, [0] * n, axis=a).shape), full)
+                f = []
+                for e in s[:rng.randint(1, r)]:
+                    b = rng.randrange(e)
+                    f += [b, rng.randint(b + 1, e), rng.choice((1, 1, 2))]
+                sl = tuple(slice(f[i], f[i + 1], f[i + 2]) for i in range(0, len(f), 3))
+                yield self.case('dslice', [('shape', s), ('bs', bs), ('sl', f)], bs, list(x[sl].shape), full)
+                m = rng.randint(1, CAP_L)
+                ax = [rng.randrange(-r, r) for _ in range(m)]
+                sh = [rng.randint(-4, 4) for _ in range(m)]
+                for ba in self.caps(m, CAP_L):
+                    yield self.case('roll', [('shape', s), ('bs', bs), ('shift', sh), ('axes', ax), ('ba', ba)], bs, list(s), full and ba == m)
+                    sp = [rng.randint(0, 2) for _ in range(m)]
+                    t = list(s)
+                    for a_, p_ in zip(ax, sp):
+                        t[a_] += (t[a_] - 1) * p_
+                    yield self.case('expand', [('shape', s), ('bs', bs), ('axes', ax), ('ba', ba), ('spacing', sp)], bs, t, full and ba == m)
+                bad = list(ax)
+                bad[rng.randrange(m)] = rng.choice((r, -r - 1, r + 1))
+                yield self.case('roll', [('shape', s), ('bs', bs), ('shift', sh), ('axes', bad), ('ba', m)], 0, None, full)
+                dst = [rng.randint(1, 5) for _ in range(r)]
+                for bd in self.caps(r, CAP_S):
+                    yield self.case('resize', [('shape', s), ('bs', bs), ('dst', dst), ('bd', bd)], bd, dst, full and bd == r)
+                if rng.random() < .3:
+                    z = list(dst)
+                    z[rng.randrange(r)] = 0
+                    yield self.case('resize', [('shape', s), ('bs', bs), ('dst', z), ('bd', r)], 0, None, full)
+                if r >= 2:
+                    a1, a2 = rng.sample(range(r), 2)
+                    off = rng.randint(-3, 3)
+                    v = list(np.diagonal(x, off, a1, a2).shape)
+                    b1 = a1 - r if rng.random() < .4 else a1
+                    b2 = a2 - r if rng.random() < .4 else a2
+                    yield self.case('diagonal', [('shape', s), ('bs', bs), ('offset', off), ('axis1', b1), ('axis2', b2)], bs - 1, v, full)
+                    kh, kw = rng.randint(1, s[-2]), rng.randint(1, s[-1])
+                    sh_, sw_ = rng.randint(1, 3), rng.randint(1, 3)
+                    c = rng.randint(0, 1)
+                    v = list(s[:-2]) + [_pool_extent(s[-2], kh, sh_, c), _pool_extent(s[-1], kw, sw_, c)]
+                    yield self.case('pool2d', [('shape', s), ('bs', bs), ('kernel', [kh, kw]), ('stride', [sh_, sw_]), ('ceil', c)], bs, v, full)
+                m = rng.randint(1, min(r, CAP_L))
+                src = rng.sample(range(r), m)
+                dst_ = rng.sample(range(r), m)
+                srcn = [a - r if rng.random() < .4 else a for a in src]
+                dstn = [a - r if rng.random() < .4 else a for a in dst_]
+                for ba in self.caps(m, CAP_L):
+                    yield self.case('moveaxis', [('shape', s), ('bs', bs), ('source', srcn), ('ba', ba), ('destination', dstn), ('bb', ba)], bs,
+                                    _moveaxis_order(r, srcn, dstn), full and ba == m)
+                badm = list(srcn)
+                badm[rng.randrange(m)] = rng.choice((r, -r - 1))
+                yield self.case('moveaxis', [('shape', s), ('bs', bs), ('source', badm), ('ba', m), ('destination', dstn), ('bb', m)], 0, None, full)
+        # --- normalize_axis on axis lists of 1..4 entries
+        for ndim in range(1, 6):
+            for m in range(1, CAP_S + 1):
+                for _ in range(3 if quick else 10):
+                    ax = [rng.randrange(-ndim, ndim) for _ in range(m)]
+                    for ba in self.caps(m, CAP_S):
+                        yield self.case('normalize_axis', [('axes', ax), ('ba', ba), ('ndim', ndim)], ba, [a % ndim for a in ax], ba == m)
+                bad = [rng.randrange(-ndim, ndim) for _ in range(m)]
+                bad[rng.randrange(m)] = rng.choice((ndim, -ndim - 1, ndim + 3))
+                yield self.case('normalize_axis', [('axes', bad), ('ba', m), ('ndim', ndim)], 0, None, True)
+        # --- matmul: every pair of ranks 1..4 (1-d promotion, broadcast batch axes), both operands at full capacity and with slack
+        for ra in range(1, CAP_S + 1):
+            for rb in range(1, CAP_S + 1):
+                for _ in range(4 if quick else 16):
+                    k = rng.randint(1, 3)
+                    ba_ = [rng.randint(1, 3) for _ in range(max(ra - 2, 0))]
+                    bb_ = [rng.choice((e, 1)) for e in ba_[max(0, len(ba_) - max(rb - 2, 0)):]]
+                    bb_ = [rng.randint(1, 3) for _ in range(max(rb - 2, 0) - len(bb_))] + bb_
+                    if rng.random() < .5:
+                        ba_ = [rng.choice((e, 1)) if i >= len(ba_) - len(bb_) else e for i, e in enumerate(ba_)]
+                    A = ba_ + ([rng.randint(1, 3), k] if ra >= 2 else [k])
+                    B = bb_ + ([k, rng.randint(1, 3)] if rb >= 2 else [k])
+                    if rng.random() < .15:
+                        B[-2 if rb >= 2 else 0] = k + 1
+                    try:
+                        v = list(np.matmul(np.empty(tuple(A), dtype=np.int8), np.empty(tuple(B), dtype=np.int8)).shape)
+                    except ValueError:
+                        v = None
+                    for bs in self.caps(ra, CAP_S):
+                        for bb in self.caps(rb, CAP_S):
+                            yield self.case('matmul', [('shape', A), ('bs', bs), ('shape2', B), ('bb', bb)], max(bs, bb), v, bs == ra and bb == rb)
+
+
+def gen_cap(tier, rng):
+    for c in CapGen(tier, rng).gen():
+        if c is not None:
+            yield c
+
+
 def gen_all(tier, rng):
     yield from gen_chains(tier, random.Random(rng.random()))
     sub = random.Random(rng.random())
     yield from gen_mut(tier, sub)
     yield from gen_tree(tier, sub)
     yield from gen_assign(tier, sub)
+    yield from gen_cap(tier, random.Random(sub.random()))
     yield from gen_replay(tier, rng)
 
 
